@@ -10,6 +10,7 @@ from .common import clist, cz, cnat
 
 IMPORTS = "From Verif Require Import Values OutputAsync."
 STOP_ID = 999
+LATE_ID = 998
 
 
 class C12(common.Spec):
@@ -68,6 +69,14 @@ class C12(common.Spec):
             orig_stop = out.stop
 
             def stop_wrapper():
+                if case.get('put_at_stop'):
+                    # an event sent by another block's clean-up reaches the block in the same loop
+                    # pass as its own stop(): it is still accepted and must be completed
+                    log.append(['put', loop.vt_us, LATE_ID])
+                    try:
+                        out.event('put', value=LATE_ID)
+                    except Exception as err:       # noqa
+                        obs['harness'] = 'late put: ' + repr(err)
                 # the moment the block is really stopped (stop_data is queued here)
                 log.append(['stop', loop.vt_us])
                 if case['stop_data']:
@@ -137,6 +146,8 @@ class C12(common.Spec):
             yield dict(case, puts=ps[:i] + ps[i + 1:])
         if case['stop_data']:
             yield dict(case, stop_data=False)
+        if case.get('put_at_stop'):
+            yield dict(case, put_at_stop=False)
         if case['guard_us']:
             yield dict(case, guard_us=0)
 
@@ -156,9 +167,10 @@ def gen_case(rng):
     script = {str(i + 1): [rng.choice([50_000, 100_000, 150_000, 300_000]),
                           'fail' if rng.random() < 0.2 else 'ok'] for i in range(len(puts))}
     script[str(STOP_ID)] = [rng.choice([50_000, 100_000]), 'ok']
+    script[str(LATE_ID)] = [rng.choice([50_000, 100_000]), 'ok']
     stop = rng.choice([times[-1], times[-1] + 50_000, times[-1] + 100_000, times[-1] + 1_000_000])
     return dict(mode=mode, guard_us=guard, puts=puts, script=script, stop_us=stop,
-                stop_data=rng.random() < 0.5)
+                stop_data=rng.random() < 0.5, put_at_stop=rng.random() < 0.25)
 
 
 def check(run):
